@@ -38,16 +38,18 @@ CONSTANTS RMKinds,        \* resource manager kinds explored
           DevNoCut,            \* list not reduced to the requested size
           DevAgentsStay,       \* agent nodes copied, not removed
           DevBackupAfterCut,   \* D20: backup list taken from the list after the cut
-          DevCopyDropsService  \* registry copy loses the service node list
+          DevCopyDropsService, \* registry copy loses the service node list
+          DevRegistryKeyCase   \* entry stored as rm.<Name>, looked up as rm.<name>
 
 VARIABLES in,      \* the input (never changes)
           phase,   \* start parsed blocked cut reserved published recreated | failed
           full,    \* node list as parsed / indexed
           P,       \* [nodes, agents, service, backup]
-          reg,     \* registry entry rm.<name> ("none" until published)
-          copy     \* RMInfo another component builds from the registry
+          reg,     \* registry: "none" until published, then [key, val]
+          copy,    \* RMInfo of another component of the pilot
+          fromreg  \* that component found agent_0's entry (did not inspect the allocation again)
 
-vars == <<in, phase, full, P, reg, copy>>
+vars == <<in, phase, full, P, reg, copy, fromreg>>
 
 EmptyP == [nodes |-> <<>>, agents |-> <<>>, service |-> <<>>, backup |-> <<>>]
 
@@ -105,7 +107,7 @@ Init ==
        \E i \in Inputs(r, hs, c, t, g, bc, b, a, sv) :
          /\ WellFormed(i) /\ InSweep(i)
          /\ in = i
-  /\ phase = "start" /\ full = <<>> /\ P = EmptyP /\ reg = "none" /\ copy = "none"
+  /\ phase = "start" /\ full = <<>> /\ P = EmptyP /\ reg = "none" /\ copy = "none" /\ fromreg = FALSE
 
 (* ---- the pipeline ---------------------------------------------------------- *)
 \* init_from_scratch of the subclass + _get_node_list
@@ -122,14 +124,14 @@ Parse ==
   /\ (PrintCases =>
         PrintT(<<"CASE", in.rm, in.hosts, in.shape, in.pseudo, in.style, in.cores, in.smt, in.known,
                  in.gpn, in.bc, in.bg, in.requested, in.slack, in.backup, in.agents, in.service>>))
-  /\ UNCHANGED <<in, P, reg, copy>>
+  /\ UNCHANGED <<in, P, reg, copy, fromreg>>
 
 \* blocked cores / GPUs are marked DOWN in every entry
 Blocked ==
   /\ phase = "parsed"
   /\ full' = [i \in 1 .. Len(full) |-> Block(full[i], in.bc, in.bg)]
   /\ phase' = "blocked"
-  /\ UNCHANGED <<in, P, reg, copy>>
+  /\ UNCHANGED <<in, P, reg, copy, fromreg>>
 
 \* assert requested <= available; reduce to the requested size (_filter_nodes)
 Cut ==
@@ -142,7 +144,7 @@ Cut ==
                                       !.backup = IF DevBackupAfterCut THEN SubSeq(cut, Req(in) + 1, Len(cut))
                                                  ELSE SubSeq(full, Req(in) + 1, Len(full))]
                /\ phase' = "cut"
-  /\ UNCHANGED <<in, full, reg, copy>>
+  /\ UNCHANGED <<in, full, reg, copy, fromreg>>
 
 \* agent nodes, then the service node, are popped from the end of the list
 Reserve ==
@@ -157,19 +159,25 @@ Reserve ==
                                  !.agents  = [i \in 1 .. nag |-> P.nodes[n - i + 1]],
                                  !.service = [i \in 1 .. nsv |-> P.nodes[n - nag - i + 1]]]
                /\ phase' = "reserved"
-  /\ UNCHANGED <<in, full, reg, copy>>
+  /\ UNCHANGED <<in, full, reg, copy, fromreg>>
 
 \* reg.put('rm.<name>', rm_info.as_dict())
 Publish ==
   /\ phase = "reserved"
-  /\ reg' = P
+  /\ reg' = [key |-> IF DevRegistryKeyCase THEN "rm.Name" ELSE "rm.name", val |-> P]
   /\ phase' = "published"
-  /\ UNCHANGED <<in, full, P, copy>>
+  /\ UNCHANGED <<in, full, P, copy, fromreg>>
 
-\* another component: RMInfo(reg.get('rm.<name>'))
+\* another component (ResourceManager.__init__): RMInfo(reg.get('rm.<name>')) if
+\* the entry is there; otherwise it inspects the allocation itself - at a later
+\* time, in an environment / with a node reachability that may have changed (at
+\* best it arrives at the same partition)
 Recreate ==
   /\ phase = "published"
-  /\ copy' = IF DevCopyDropsService THEN [reg EXCEPT !.service = <<>>] ELSE reg
+  /\ LET found == reg.key = "rm.name" IN
+     /\ fromreg' = found
+     /\ copy' = IF ~found THEN P
+                ELSE IF DevCopyDropsService THEN [reg.val EXCEPT !.service = <<>>] ELSE reg.val
   /\ phase' = "recreated"
   /\ UNCHANGED <<in, full, P, reg>>
 
@@ -189,7 +197,7 @@ InvDisjoint      == Offered => Disjoint(P, in)
 InvReserved      == Offered => Reserved(P, in)
 InvNonEmpty      == Offered => NonEmpty(P)
 InvNotLonger     == Offered => NotLonger(P, in)
-InvSameEverywhere == phase = "recreated" => copy = P
+InvSameEverywhere == phase = "recreated" => fromreg /\ copy = P
 \* initialisation refuses exactly the allocations that cannot serve the request
 InvRefusal       == /\ phase = "failed" => ExpectError(in)
                     /\ Offered => ~ExpectError(in)
